@@ -53,11 +53,11 @@ impl Strategy {
 }
 
 pub fn knobs_json(k: &Knobs) -> Value {
-    json!({"capacity": k.capacity, "heap_limit": k.heap_limit, "mmap": k.mmap, "toggle_multi_line": k.toggle_ml})
+    json!({"capacity": k.capacity, "heap_limit": k.heap_limit, "mmap": k.mmap, "toggle_multi_line": k.toggle_ml, "warm_up": k.warm, "cloned_searcher": k.cloned})
 }
 
 pub fn knobs_from_json(v: &Value) -> Knobs {
-    Knobs { capacity: v["capacity"].as_u64().map(|x| x as usize), heap_limit: v["heap_limit"].as_u64().map(|x| x as usize), mmap: v["mmap"].as_bool().unwrap_or(false), toggle_ml: v["toggle_multi_line"].as_bool().unwrap_or(false) }
+    Knobs { capacity: v["capacity"].as_u64().map(|x| x as usize), heap_limit: v["heap_limit"].as_u64().map(|x| x as usize), mmap: v["mmap"].as_bool().unwrap_or(false), toggle_ml: v["toggle_multi_line"].as_bool().unwrap_or(false), warm: v["warm_up"].as_u64().unwrap_or(0), cloned: v["cloned_searcher"].as_bool().unwrap_or(false) }
 }
 
 #[derive(Clone, Debug)]
@@ -115,6 +115,9 @@ fn run_inner(case: &Case, knobs: &Knobs, strat: &Strategy, inject: Option<(usize
         k.mmap = *mmap;
     }
     let mut searcher = build_searcher(&case.cfg, &k);
+    if k.warm != 0 {
+        warm_up(&mut searcher, &matcher, case, k.warm, scratch);
+    }
     let mut sink = SimSink::new(inject);
     let (res, log, eintr, errf) = match strat {
         Strategy::Slice => (searcher.search_slice(&matcher, &case.data, &mut sink), vec![], 0, false),
@@ -141,5 +144,41 @@ fn run_inner(case: &Case, knobs: &Knobs, strat: &Strategy, inject: Option<(usize
         eintr_fired: eintr,
         error_fired: errf,
         panicked: None,
+    }
+}
+
+/// A previous search with the same Searcher: other data of the same shape,
+/// as a slice, through a reader (which may fail midway) or a file, run to the
+/// end or stopped by the sink at some event. Its results are discarded; what
+/// matters is the state it leaves behind in the searcher's buffers.
+fn warm_up(searcher: &mut grep_searcher::Searcher, matcher: &grep_regex::RegexMatcher, case: &Case, warm: u64, scratch: Option<&Path>) {
+    let mut rng = simcore::Rng::new(warm);
+    let mut data = gen_text(&mut rng, case.cfg.term, 30);
+    if rng.chance(1, 3) {
+        // make sure the previous haystack holds something that matches now
+        data.extend_from_slice(&case.data[..case.data.len().min(4096)]);
+    }
+    let inject = match rng.below(3) {
+        0 => Some((rng.below(6), Answer::Stop)),
+        _ => None,
+    };
+    let mut sink = SimSink::new(inject);
+    match rng.below(4) {
+        0 => {
+            let _ = searcher.search_slice(matcher, &data, &mut sink);
+        }
+        3 if scratch.is_some() => {
+            let p = scratch.unwrap().join("warmup");
+            std::fs::write(&p, &data).expect("write warm-up haystack");
+            let _ = searcher.search_path(matcher, &p, &mut sink);
+        }
+        _ => {
+            let mut h = History::plain(Style::gen(&mut rng), rng.next());
+            if rng.chance(1, 4) {
+                h.fault_at = Some((rng.below(4), ReadFault::Error));
+            }
+            let mut rdr = SimReader::new(&data, &h, case.cfg.term.byte());
+            let _ = searcher.search_reader(matcher, &mut rdr, &mut sink);
+        }
     }
 }
